@@ -57,13 +57,15 @@ def expected_item(stmt):
     return (squeeze(tokens_text(toks)), label, name)
 
 
-def head(stmt, indent=""):
+def head(stmt, indent="", style=0):
+    """label and construct name in front of a statement; style > 0: other legal spellings of the same label / name
+    (leading zeros, up to five digits, blanks around the colon)"""
     label, name, toks = stmt
     h = indent
     if label is not None:
-        h += "%d " % label
+        h += ("%d " if style == 0 else "0%d " if style == 1 else "%05d   " if style == 2 else "%d  ") % label
     if name is not None:
-        h += "%s: " % name
+        h += ("%s: " if style == 0 else "%s : " if style == 1 else "%s:" if style == 2 else "%s   :  ") % name
     return h
 
 
@@ -74,6 +76,10 @@ def free_layouts(stmt, rng, limit):
     # 0. canonical
     yield [head(stmt) + tokens_text(toks)], []
     yield [head(stmt, "   ") + tokens_text(toks) + "   "], []
+    if label is not None or name is not None:
+        for style in (1, 2, 3):
+            yield [head(stmt, "", style) + tokens_text(toks)], []
+            yield [head(stmt, " ", style) + tokens_text(toks[:1]) + " &", "  &" + tokens_text(toks[1:])], []
     # 1. split at every token boundary, with / without leading &
     splits = []
     for k in range(1, len(toks)):
@@ -172,7 +178,7 @@ def main(argv):
     for a, b in itertools.permutations(STATEMENTS[:5], 2):
         for sep in (";", " ; ", ";  "):
             for tail in ("", " ! trailing"):
-                src = head(a) + tokens_text(a[2]) + sep + head(b) + tokens_text(b[2]) + tail + "\n" + "z = 0\n"
+                src = head(a) + tokens_text(a[2]) + sep + head(b, "", (len(sep) + len(tail)) % 4) + tokens_text(b[2]) + tail + "\n" + "z = 0\n"
                 cases += 1
                 try:
                     items = read_items(src, ignore_comments=False)
